@@ -123,3 +123,24 @@ Theorem C14_code_composite_three_entries : forall af1 sf1 af2 sf2 af3 sf3,
    if (a1 =? a2) && (a1 =? a3) then ret a1 else fail EValue).
 Proof. exact tie_composite_alfid3. Qed.
 Print Assumptions C14_code_composite_three_entries.
+
+(* ---- the code is the model: write_memory_by_address with explicit formats and the server's echo (tools/symtrans.py, Gen/Fn_MemoryEcho.v) ---- *)
+From UDS Require Import Gen.Fn_MemoryEcho Model.Svc_Memory Proofs.Tie_simple_common Proofs.Tie_memory_echo.
+Theorem C14_code_write_memory_request_16_8 : forall cfg a s data, no_server_formats cfg ->
+  fn_write_memory_request_16_8 a s data = payload_of (wmba_make cfg a s (Some 16) (Some 8) data).
+Proof. exact tie_write_memory_request_16_8. Qed.
+Print Assumptions C14_code_write_memory_request_16_8.
+Theorem C14_code_write_memory_echo_16_8 : forall cfg a s data d r p, no_server_formats cfg ->
+  fn_write_memory_request_16_8 a s data = inr p -> d <> [] -> (List.length d < 6)%nat -> p_data r = d ->
+  fn_write_memory_interpret_16_8 a s data d = wmba_interpret cfg a s (Some 16) (Some 8) r.
+Proof. exact tie_write_memory_interpret_16_8. Qed.
+Print Assumptions C14_code_write_memory_echo_16_8.
+Theorem C14_code_write_memory_request_64_64 : forall cfg a s data, no_server_formats cfg ->
+  fn_write_memory_request_64_64 a s data = payload_of (wmba_make cfg a s (Some 64) (Some 64) data).
+Proof. exact tie_write_memory_request_64_64. Qed.
+Print Assumptions C14_code_write_memory_request_64_64.
+Theorem C14_code_write_memory_echo_64_64 : forall cfg a s data d r p, no_server_formats cfg ->
+  fn_write_memory_request_64_64 a s data = inr p -> (17 <= List.length d < 19)%nat -> p_data r = d ->
+  fn_write_memory_interpret_64_64 a s data d = wmba_interpret cfg a s (Some 64) (Some 64) r.
+Proof. exact tie_write_memory_interpret_64_64. Qed.
+Print Assumptions C14_code_write_memory_echo_64_64.
